@@ -216,6 +216,27 @@ CHECKS = {
             'its inverse, np.linalg.cholesky returns the positive-diagonal factor. Not decided: applying the parameters to a spec and '
             'compiling (C++ compiler).',
             'symbolic tracing of the real Python functions + z3 NRA'),
+    'C41': ('DESIGN.md section 4 / C41 and section 12',
+            'Bounded exploration with the property as a contract used as oracle (nothing counted as proved): generated valid schemas must '
+            'parse to a schema that passes an independent re-check of every documented rule; each of 12 rule-breaking mutations of them must '
+            'raise SchemaError; random token streams, spliced streams and very deep `use` chains / cycles must return a schema or raise '
+            'SchemaError with a line inside the text - no other exception. One structural obligation decided from the ast: the module has '
+            'no recursive function, so its own recursion cannot exhaust the interpreter stack (this found the RecursionError defect).',
+            'No deductive verifier for Python is available and the parser (regex lexing, dataclasses, dynamic typing) is outside what the '
+            'self-built VC generators read; the level is exploration and the evidence says so. Seeded, VERIF_SEED.',
+            'runtime contract (oracle) + grammar-based generation and mutation; ast call-graph scan', 'exploration'),
+    'C18': ('DESIGN.md section 4 / C18 and section 12',
+            'Deductive proof on the real engine_sleep.c of the cycle discipline of tree_asleep, with ghost labels describing the cycle a tree '
+            'belongs to: mj_wakeIsland on a sleeping tree sets exactly the trees of its cycle to the wake value, changes nothing else, '
+            'returns the cycle length and never takes an error path (inductive invariant + variant), on an awake tree only lowers that '
+            'tree\'s counter; mj_sleepTrees turns a list of distinct ready trees into one new cycle in list order, zeroes exactly their '
+            'dof velocities/accelerations and touches no other tree; mj_sleepCycle terminates, returns -1 for bad / awake indices and a '
+            'member of the cycle not above i otherwise; mj_updateSleepInit: tree_awake is the sign of tree_asleep, body states follow the '
+            'documented rule, the three index lists are strictly increasing, in range and contain only selected bodies / dofs.',
+            'Trusted: VC generator, clang, z3/cvc5. The debug-log blocks are compiled out with the repository switch '
+            'MJ_DISABLE_DEBUG_TRACING. Not decided (listed): bit-identical qpos of sleeping trees across steps, the wake policies, '
+            'completeness of the index lists, the minimum property of mj_sleepCycle (bounded stand-in only).',
+            'contracts with ghost parameters + inductive loop invariants and variants, z3 LIA+arrays+quantifiers; bounded native stand-in'),
 }
 
 NA = {
@@ -257,7 +278,8 @@ def main():
     for p in props:
         pid = p['id']
         if pid in CHECKS:
-            ref, text, note, tech = CHECKS[pid]
+            ref, text, note, tech = CHECKS[pid][:4]
+            category = CHECKS[pid][4] if len(CHECKS[pid]) > 4 else 'proof'
             checks.append({
                 'property_id': pid,
                 'quick_cmd': './check %s --tier quick' % pid,
@@ -265,7 +287,7 @@ def main():
                 'evidence_file': 'evidence/%s.json' % pid,
                 'replay_cmd_template': './check %s --replay {path}' % pid,
                 'engine': 'cvc',
-                'level_claimed': {'category': 'proof', 'text': text, 'design_ref': ref},
+                'level_claimed': {'category': category, 'text': text, 'design_ref': ref},
                 'level_note': note,
                 'technique': tech,
             })
